@@ -117,6 +117,13 @@ def run(ctx, model=None):
         if ctx.time_left() < 0:
             return
     through_run_games(ctx, batch[:20 if ctx.quick() else 200])
+    import analysis as _an
+    _pool = []
+    _r2 = random.Random(ctx.seed + 4242)
+    while len(_pool) < 14:
+        _pool.append(gen.stopping_game(_r2, n_inner=_r2.randint(2, 5), dead_frac=_r2.choice([0.0, 0.6])))
+    for _k in range(4 if ctx.quick() else 40):
+        _an.batch_vs_alone(ctx, _r2.sample(_pool, _r2.randint(2, 5)), ['rewards'], 'run_games-rewards-equal-solo-run')
     shapes = [(1, 1), (2, 1), (1, 2), (2, 2)] if ctx.quick() else [(1, 1), (2, 1), (1, 2), (2, 2), (3, 3), (2, 4), (5, 5)]
     for (L, W) in shapes:
         for fd in (False, True):
